@@ -141,7 +141,7 @@ func extractRangeHelper(p *core.Prog, f *core.Fn) rangeHelper {
 func c12(r *core.Run) {
 	r.Expl = "C12 (interface summaries equal the stored data in range): decides (1) the per-block statistics that ReadMetadata subtracts for blocks outside the range carry every field of gpfile.Stats (both flow counts, drops, four counters, each counter from its own column), and Stats.Sub / TrafficMetadata.Sub / Counters.Sub and the Add counterparts cover every field; (2) exhaustively over the order type of a block's timestamp against the bound: BlocksBefore(t) returns exactly the blocks with timestamp < t, BlocksAfter(t) exactly those with timestamp > t, and the query's block filter skips exactly timestamp < first or > last — so the listing subtracts exactly what the query skips; (3) the blocks handed to the subtraction are the results of BlocksBefore(first) / BlocksAfter(last) themselves (value origin), with the matching index offset, and the operation is Sub; every visited day is added in full first. NOT decided: the sums as numbers, day-boundary arithmetic of walkDB, agreement with the directory-name suffix."
 	r.Floor = 30
-	r.Rules = append(r.Rules, "field-coverage (P3)", "range-predicate-agreement (P7 over order atoms)", "value-origin (P9)")
+	r.Rules = append(r.Rules, "field-coverage (P3)", "range-predicate-agreement (P7 over order atoms)", "value-origin (P9)", "every-listed-block-evaluated (P2)")
 	p := r.Prog("cgo")
 	ruleAccumulate(r, p, pkgGpfile, "Stats.Sub", token.SUB_ASSIGN)
 	ruleAccumulate(r, p, pkgGpfile, "TrafficMetadata.Sub", token.SUB_ASSIGN)
@@ -150,6 +150,7 @@ func c12(r *core.Run) {
 	ruleAccumulate(r, p, pkgGpfile, "TrafficMetadata.Add", token.ADD_ASSIGN)
 	ruleAccumulate(r, p, "pkg/types", "Counters.Add", token.ADD_ASSIGN)
 	c12BlockStats(r, p)
+	c12EveryBlock(r, p)
 	c12RangeAgreement(r, p)
 	c12Origin(r, p)
 }
@@ -465,4 +466,100 @@ func c12Origin(r *core.Run, p *core.Prog) {
 		return true
 	})
 	r.Check(rule, "ReadMetadata:day-totals-added", p.Rel(f.Decl.Pos()), okAdd, "the totals of every visited day must be added before partial days are corrected")
+}
+
+// c12EveryBlock: every block handed to readMetadataAndEvaluate reaches the statistics callback exactly once; the only
+// permitted skip is a block found broken. A block skipped for any other reason (for instance "it holds no flows") keeps its
+// drops — which are stored per block independently of the flows — in the day totals although it lies outside the range.
+func c12EveryBlock(r *core.Run, p *core.Prog) {
+	const rule = "every-listed-block-evaluated"
+	f := r.MustFunc(rule, pkgGoDB, "DBWorkManager.readMetadataAndEvaluate")
+	if f == nil {
+		return
+	}
+	info := f.Info()
+	sig := f.Obj.Type().(*types.Signature)
+	var cb, blocksParam types.Object
+	for i := 0; i < sig.Params().Len(); i++ {
+		pr := sig.Params().At(i)
+		if _, isFn := pr.Type().Underlying().(*types.Signature); isFn {
+			cb = pr
+		}
+		if sl, isSl := pr.Type().Underlying().(*types.Slice); isSl && strings.HasSuffix(core.TypeName(sl.Elem()), "BlockAtTime") {
+			blocksParam = pr
+		}
+	}
+	var loop *ast.RangeStmt
+	core.Walk(f.Decl.Body, false, func(x ast.Node) bool {
+		if rs, ok := x.(*ast.RangeStmt); ok && loop == nil && blocksParam != nil && core.ObjOf(info, rs.X) == blocksParam {
+			loop = rs
+		}
+		return true
+	})
+	if cb == nil || loop == nil {
+		r.Undecided(rule, "readMetadataAndEvaluate:structure", p.Rel(f.Decl.Pos()), "callback parameter / loop over the listed blocks not found")
+		return
+	}
+	// the broken flag: a bool local declared in the loop body
+	wrap := &ast.BlockStmt{List: loop.Body.List}
+	g := core.NewGraph(info, wrap)
+	cl := func(n ast.Node, cond *bool) []ev {
+		var out []ev
+		if cond != nil {
+			atom, truth := normCond(n.(ast.Expr), *cond)
+			if o, ok := core.ObjOf(info, atom).(*types.Var); ok && o.Pos() >= loop.Body.Pos() && o.Pos() < loop.Body.End() {
+				if b, isB := o.Type().Underlying().(*types.Basic); isB && b.Kind() == types.Bool && truth {
+					// a failure flag: a bool of the iteration that the body sets to true (on a read / sanity failure)
+					setTrue := false
+					core.Walk(loop.Body, false, func(y ast.Node) bool {
+						if a, ok := y.(*ast.AssignStmt); ok && len(a.Lhs) == 1 && len(a.Rhs) == 1 && core.ObjOf(info, a.Lhs[0]) == types.Object(o) {
+							if tv, ok := info.Types[a.Rhs[0]]; ok && tv.Value != nil && tv.Value.String() == "true" {
+								setTrue = true
+							}
+						}
+						return true
+					})
+					if setTrue {
+						out = append(out, ev{label: "flag-true:broken"})
+					}
+				}
+			}
+			return out
+		}
+		for _, c := range core.Calls(n, false) {
+			if core.ObjOf(info, c.Fun) == cb {
+				out = append(out, ev{label: "callback"})
+			}
+		}
+		if _, ok := n.(*ast.ReturnStmt); ok {
+			out = append(out, ev{label: "return"})
+		}
+		return out
+	}
+	fake := &core.Fn{Prog: p, Pkg: f.Pkg, Decl: &ast.FuncDecl{Body: wrap, Name: f.Decl.Name, Type: &ast.FuncType{}}, Obj: f.Obj, Name: f.Name}
+	ts, ok := traces(fake, g, cl, 20000)
+	if !ok {
+		r.Undecided(rule, "readMetadataAndEvaluate:paths", p.Rel(loop.Pos()), "too many paths")
+		return
+	}
+	bad, nOK := "", 0
+	for _, t := range ts {
+		if t.has("return") {
+			continue
+		}
+		broken := false
+		for _, e := range t.evs {
+			if strings.HasPrefix(e.label, "flag-true:") && strings.Contains(strings.ToLower(e.label), "broken") {
+				broken = true
+			}
+		}
+		switch {
+		case t.count("callback") == 1:
+			nOK++
+		case t.count("callback") == 0 && broken:
+		default:
+			bad = fmt.Sprintf("an iteration over a listed block reaches the statistics callback %d times without the block having been found broken: %s", t.count("callback"), pathLines(p, g, t.path))
+		}
+	}
+	r.Check(rule, "readMetadataAndEvaluate:callback-once-per-listed-block", p.Rel(loop.Pos()), bad == "" && nOK > 0, bad)
 }
